@@ -116,6 +116,8 @@ func (c *Config) GetKpasswdServers(realm string, tcp bool) (int, map[int]string,
 }
 
 func randServOrder(ks []string) map[int]string {
+	// Work on a copy so that the configuration's own list is not reordered.
+	ks = append([]string(nil), ks...)
 	kdcs := make(map[int]string)
 	count := len(ks)
 	i := 1
